@@ -82,8 +82,9 @@ func (prog *Prog) Dump(dest io.Writer) error {
 	for _, v := range prog.constants {
 		// all but string can fit in a fixed buffer
 		if s, ok := v.(string); ok {
-			if 2+len(s) > len(p) {
-				p = make([]byte, 2+len(s))
+			// type byte + up to 9B of length uvarint + content
+			if 1+9+len(s) > len(p) {
+				p = make([]byte, 1+9+len(s))
 			}
 		}
 		n = valueToBytes(p, v)
